@@ -104,6 +104,7 @@ package rosmar
 //@   ensures [C01:GetRaw.frame] db == old(db)
 //@ fn looksLikeJSON
 //@   modular in=AddRaw
+//@   ensures [C08:looksLikeJSON.braces] result == (len(data) >= 2 && byteat(data, 0) == 123 && byteat(data, len(data) - 1) == 125)
 //@ fn (*Collection).AddRaw
 //@   requires DocInv(doc(c.id, key)) && HlcInv(doc(c.id, key)) && IntOK(doc(c.id, key))
 //@   requires !isnull(val)
@@ -637,6 +638,7 @@ package rosmar
 //@   loop 1001 invariant [C07:wwx.preserve-loop] true
 //@   loop 1002 invariant [C07:wwx.apply-loop] forall k: Str :: !haskey(xattrsPayload, k) ==> xattrs[k] == atentry(xattrs[k])
 //@   loop 1002 body [C07:wwx.one-xattr-per-step]  iter("mapupdate") + iter("mapdelete") <= 1
+//@   loop 1002 body [C07:wwx.removes-only-what-is-there] iter("mapdelete") == 1 ==> deletedpresent()
 //@   loop 1002 body [C07:wwx.macro-sees-new-cas]  iter("call:event.expandXattrMacros") == 1 ==> callrecv("event.expandXattrMacros").cas == newCas && callrecv("event.expandXattrMacros").key == key
 //@   loop 1002 body [C07:wwx.macro-sees-stored-body] iter("call:event.expandXattrMacros") == 1 && val != nil ==> (pnil(*val) ==> isnull(callrecv("event.expandXattrMacros").value)) && (plainJSON(*val) ==> callrecv("event.expandXattrMacros").value == val.marshaled)
 //@   loop 1002 body [C07:wwx.macro-keeps-body]    iter("call:event.expandXattrMacros") == 1 && val == nil ==> callrecv("event.expandXattrMacros").value == (if r.present then r.value else NULL)
@@ -749,8 +751,10 @@ package rosmar
 //@   ensures [C07:removeXattrs.stops-early-only-on-error] leftloopearly() ==> err != nil
 //@   ensures [C07:removeXattrs.invalid-key-is-an-error] count("call:validateXattrKey") >= 1 && callret("validateXattrKey", 0) != nil ==> err != nil
 //@   loop 1001 invariant [C07:removeXattrs.only-removes] forall k: Str :: xattrs[k] == NOX || xattrs[k] == atentry(xattrs[k])
+//@   loop 1001 invariant [C07:removeXattrs.only-the-named] forall k: Str :: xattrs[k] == atentry(xattrs[k]) || (exists i: Int :: 0 <= i && i < len(xattrKeys) && xattrKeys[i] == k)
 //@   loop 1001 body [C07:removeXattrs.one-per-key] iter("mapdelete") == 1
 //@   ensures [C07:removeXattrs.never-adds] forall k: Str :: xget(rawResult, k) == NOX || xget(rawResult, k) == xget(rawXattrs, k)
+//@   ensures [C05,C07:removeXattrs.keeps-the-others] forall k: Str :: xget(rawResult, k) == xget(rawXattrs, k) || (exists i: Int :: 0 <= i && i < len(xattrKeys) && xattrKeys[i] == k)
 //@   ensures [C05,C07:removeXattrs.valid]  validX(rawResult) && (isnull(rawXattrs) ==> isnull(rawResult))
 //@
 //@ fn (*Collection).DeleteWithXattrs
@@ -761,6 +765,7 @@ package rosmar
 //@   ensures [C01,C05,C14:DeleteWithXattrs.tombstone] result == nil ==> r.present && isnull(r2.value) && r2.tombstone == 1 && r2.exp == 0 && r2.isJSON == 0
 //@   ensures [C07:DeleteWithXattrs.xattrs-only-removed] result == nil ==> forall k: Str :: xget(r2.xattrs, k) == NOX || xget(r2.xattrs, k) == xget(r.xattrs, k)
 //@   ensures [C01:DeleteWithXattrs.missing] !r.present ==> result != nil
+//@   ensures [C05,C07:DeleteWithXattrs.keeps-the-others] result == nil ==> forall k: Str :: xget(r2.xattrs, k) == xget(r.xattrs, k) || (exists i: Int :: 0 <= i && i < len(xattrKeys) && xattrKeys[i] == k)
 //@   ensures [C07:DeleteWithXattrs.success-writes] result == nil ==> r2.present && r2.cas == newCas
 //@
 //@ fn (*Collection).DeleteSubDocPaths
@@ -771,6 +776,7 @@ package rosmar
 //@   ensures [C07:DeleteSubDocPaths.body-kept] result == nil ==> r.present && r2.value == r.value && r2.isJSON == r.isJSON && r2.exp == r.exp && r2.tombstone == r.tombstone
 //@   ensures [C07:DeleteSubDocPaths.xattrs-only-removed] result == nil ==> forall k: Str :: xget(r2.xattrs, k) == NOX || xget(r2.xattrs, k) == xget(r.xattrs, k)
 //@   ensures [C01:DeleteSubDocPaths.missing] !r.present ==> result != nil
+//@   ensures [C05,C07:DeleteSubDocPaths.keeps-the-others] result == nil ==> forall k: Str :: xget(r2.xattrs, k) == xget(r.xattrs, k) || (exists i: Int :: 0 <= i && i < len(xattrKeys) && xattrKeys[i] == k)
 //@   ensures [C07:DeleteSubDocPaths.success-writes] result == nil ==> r2.present && r2.cas == newCas
 //@
 //@ fn (*Collection).getRawWithXattrs
@@ -800,6 +806,7 @@ package rosmar
 //@   requires DocInv(doc(c.id, key))
 //@   ensures [C01:GetXattrs.delegates] count("call:Collection.getRawWithXattrs") == 1 && callarg("Collection.getRawWithXattrs", 1) == key && callarg("Collection.getRawWithXattrs", 0) == c
 //@   ensures [C01,C07:GetXattrs.returns-stored] result2 == nil ==> result0 == callret("Collection.getRawWithXattrs", 0).Xattrs && result1 == callret("Collection.getRawWithXattrs", 0).Cas
+//@   ensures [C05,C07:GetXattrs.none-found-is-an-error] callret("Collection.getRawWithXattrs", 1) == nil && len(callret("Collection.getRawWithXattrs", 0).Xattrs) == 0 ==> result2 != nil
 //@   ensures [C01:GetXattrs.error]      callret("Collection.getRawWithXattrs", 1) != nil ==> result2 == callret("Collection.getRawWithXattrs", 1)
 
 // ---------------------------------------------------------------------------------------------------------------
@@ -818,6 +825,11 @@ package rosmar
 //@   ensures [C01,C05:Update.delete-writes-no-body] count("call:Collection.WriteCas") >= 1 && isnull(cbret(0)) && cbret(2) ==> isnull(rawof(callarg("Collection.WriteCas", 4)))
 //@   ensures [C01,C14:Update.expiry] count("call:Collection.WriteCas") >= 1 && cbret(1) != nil ==> callarg("Collection.WriteCas", 2) == *cbret(1)
 //@   ensures [C03:Update.success-is-writecas] err == nil && casOut != 0 ==> count("call:Collection.WriteCas") >= 1 && callret("Collection.WriteCas", 1) == nil && casOut == callret("Collection.WriteCas", 0)
+//@   ensures [C01,C03:Update.read-error-is-returned] callret("Collection.getRaw", 3) != nil && !ismissing(callret("Collection.getRaw", 3)) ==> err == callret("Collection.getRaw", 3) && casOut == 0 && count("callback") == 0
+//@   ensures [C01,C03:Update.missing-document-reaches-the-callback] ismissing(callret("Collection.getRaw", 3)) ==> count("callback") == 1
+//@   ensures [C01,C03:Update.canceled-writes-nothing] count("callback") == 1 && cbret(3) == nil && isnull(cbret(0)) && cbret(1) == nil && !cbret(2) ==> count("call:Collection.WriteCas") == 0 && err == nil && casOut == 0
+//@   ensures [C01,C03:Update.writes-unless-canceled] count("callback") == 1 && cbret(3) == nil && !(isnull(cbret(0)) && cbret(1) == nil && !cbret(2)) ==> count("call:Collection.WriteCas") == 1
+//@   ensures [C01,C03:Update.callback-error-writes-nothing] count("callback") == 1 && cbret(3) != nil ==> count("call:Collection.WriteCas") == 0
 //@   ensures [C20:Update.unlocked] any: nolocks()
 //@
 //@ fn evalSubdocPath
@@ -839,6 +851,19 @@ package rosmar
 //@   ensures result1 == nil ==> len(result0) >= 1
 //@   ensures [C18:parseSubdocPath.nonempty] result1 == nil ==> len(result0) >= 1
 //@
+//@ fn (*Collection).GetSubDocRaw
+//@   ensures [C18:GetSubDocRaw.parses-the-path] count("call:parseSubdocPath") == 1 && callarg("parseSubdocPath", 0) == subdocKey
+//@   ensures [C18:GetSubDocRaw.bad-path-is-an-error] callret("parseSubdocPath", 1) != nil ==> err != nil && count("call:Collection.Get") == 0
+//@   ensures [C01,C18:GetSubDocRaw.reads-the-document] callret("parseSubdocPath", 1) == nil ==> count("call:Collection.Get") == 1 && callarg("Collection.Get", 0) == c && callarg("Collection.Get", 1) == key
+//@   ensures [C01,C18:GetSubDocRaw.read-error-is-returned] count("call:Collection.Get") == 1 && callret("Collection.Get", 1) != nil ==> err == callret("Collection.Get", 1)
+//@   ensures [C18:GetSubDocRaw.walks-the-parsed-path] err == nil ==> count("call:evalSubdocPath") == 1 && callarg("evalSubdocPath", 1) == callret("parseSubdocPath", 0) && callret("evalSubdocPath", 1) == nil
+//@   ensures [C18:GetSubDocRaw.missing-property-is-an-error] count("call:evalSubdocPath") == 1 && callret("evalSubdocPath", 1) != nil ==> err != nil
+//@   ensures [C01,C18:GetSubDocRaw.cas-of-the-version-read] err == nil ==> casOut == callret("Collection.Get", 0)
+//@   ensures [C18:GetSubDocRaw.walks-the-document-it-read] count("call:evalSubdocPath") == 1 ==> mapid(callarg("evalSubdocPath", 0)) == calloutmap("Collection.Get", 2)
+//@   ensures [C18:GetSubDocRaw.returns-the-addressed-property] err == nil ==> value == marshalof(callret("evalSubdocPath", 0))
+//@   ensures [C18:GetSubDocRaw.read-only] count("sql") == 0 && db == old(db)
+//@   mustfail [C18:GetSubDocRaw.can-succeed] err != nil
+//@
 //@ fn (*Collection).subdocWrite
 //@   modular in=SubdocInsert,WriteSubDoc
 //@   loop 1 invariant [C18:subdocWrite.loop] true
@@ -857,6 +882,7 @@ package rosmar
 //@   mustfail [C18:subdocWrite.write-can-succeed] !(!insert && err == nil)
 //@   ensures [C18:subdocWrite.no-cas-on-error] err != nil ==> casOut == 0
 //@   ensures [C14,C18:subdocWrite.writes-without-expiry-or-options] count("call:Collection.WriteCas") >= 1 ==> callarg("Collection.WriteCas", 2) == 0 && callarg("Collection.WriteCas", 5) == 0
+//@   ensures [C18,C20:subdocWrite.edits-a-real-map] count("call:evalSubdocPath") >= 1 ==> !nilmap(callarg("evalSubdocPath", 0))
 //@   ensures [C03,C18:subdocWrite.decodes-into-fresh-map] count("call:Collection.Get") >= 1 ==> calltargetnil("Collection.Get", 2)
 //@   ensures [C20:subdocWrite.unlocked] any: nolocks()
 
@@ -1116,4 +1142,6 @@ package rosmar
 //@   ensures [C07,C14:WriteUpdateWithXattrs.keeps-preserve-expiry] (iter("call:Collection.WriteWithXattrs") == 1 ==> callarg("Collection.WriteWithXattrs", 8) != nil && callarg("Collection.WriteWithXattrs", 8).PreserveExpiry == old(opts.PreserveExpiry)) && (iter("call:Collection.WriteTombstoneWithXattrs") == 1 ==> callarg("Collection.WriteTombstoneWithXattrs", 8) != nil && callarg("Collection.WriteTombstoneWithXattrs", 8).PreserveExpiry == old(opts.PreserveExpiry)) && (iter("call:Collection.WriteResurrectionWithXattrs") == 1 ==> callarg("Collection.WriteResurrectionWithXattrs", 6) != nil && callarg("Collection.WriteResurrectionWithXattrs", 6).PreserveExpiry == old(opts.PreserveExpiry))
 //@   ensures [C02,C03:WriteUpdateWithXattrs.cas-of-version-shown] (iter("call:Collection.WriteWithXattrs") == 1 ==> callarg("Collection.WriteWithXattrs", 4) == callbackarg(2) && callarg("Collection.WriteWithXattrs", 2) == key) && (iter("call:Collection.WriteTombstoneWithXattrs") == 1 ==> callarg("Collection.WriteTombstoneWithXattrs", 4) == callbackarg(2) && callarg("Collection.WriteTombstoneWithXattrs", 2) == key)
 //@   ensures [C03:WriteUpdateWithXattrs.stores-callback-result] iter("call:Collection.WriteWithXattrs") == 1 ==> callarg("Collection.WriteWithXattrs", 5) == cbret(0).Doc && callarg("Collection.WriteWithXattrs", 6) == cbret(0).Xattrs
+//@   ensures [C05,C06:WriteUpdateWithXattrs.resurrection-stores-callback-result] iter("call:Collection.WriteResurrectionWithXattrs") == 1 ==> callarg("Collection.WriteResurrectionWithXattrs", 2) == key && callarg("Collection.WriteResurrectionWithXattrs", 4) == cbret(0).Doc && callarg("Collection.WriteResurrectionWithXattrs", 5) == cbret(0).Xattrs
+//@   ensures [C05:WriteUpdateWithXattrs.refuses-a-tombstone-only-for-xattr-deletes] issentinel(err, "sg-bucket.ErrDeleteXattrOnTombstone") && count("call:Collection.WriteWithXattrs") + count("call:Collection.WriteTombstoneWithXattrs") + count("call:Collection.WriteResurrectionWithXattrs") == 0 && count("callback") == 1 && cbret(1) == nil ==> len(cbret(0).XattrsToDelete) > 0
 //@   ensures [C20:WriteUpdateWithXattrs.unlocked] any: nolocks()
